@@ -1,12 +1,655 @@
+"""C07 - no crash, hang or panic; every error value usable.
+
+Streams (go/harness/gen_robust.go, ops_robust.go): every public entry point on random / mutated /
+truncated / deeply nested / huge inputs and on cyclic / deep / non-encodable Go values; every
+returned error is formatted under recover.  The Lean side (Model/Robust.lean + regenerated
+Generated/Bounds.lean) answers the excerpt arithmetic, which is compared with the text the real
+formatters print (behavioural cross-check of the translator) - a difference there is a broken tie,
+not a violation.  Violations are only what the property statement names: panic, fatal crash, hang,
+success without progress, an error whose formatting panics, an unbounded message, a position
+outside the input."""
 from ..runner import Spec, Stream
+
+WS = b" \t\r\n"
+
+OPTDEC = {"SONIC_USE_OPTDEC": "1"}
+OPTDEC_FM = {"SONIC_USE_OPTDEC": "1", "SONIC_USE_FASTMAP": "1"}
+VM = {"SONIC_ENCODER_USE_VM": "1"}
+NOAVX2 = {"SONIC_MODE": "noavx2"}
+
+
+def _int(s, k, d=None):
+    try:
+        return int(s.get(k, ""))
+    except ValueError:
+        return d
+
+
+def _unhex(h):
+    return b"" if h == "-" else bytes.fromhex(h)
+
+
+def big_doc(kind, n):
+    """python twin of rbBigDoc (go/harness/ops_robust.go)"""
+    r = {"str": b'"' + b"a" * n + b'"', "str_open": b'"' + b"a" * n, "str_esc": b'"' + "é\\n".encode() * (n // 8) + b'"',
+         "str_badesc": b'"' + b"a" * n + b'\\q"', "str_utf8": b'"' + b"\xff" * n + b'"', "digits": b"9" * n, "frac": b"0." + b"0" * n + b"1",
+         "exp": b"1e" + b"9" * n, "minus": b"-" * n, "blanks": b" " * n + b"1", "blanks_only": b"\n" * n, "key": b'{"' + b"k" * n + b'":1}',
+         "wide_arr": b"[" + b"1," * (n // 2) + b"1]", "wide_arr_open": b"[" + b"1," * (n // 2),
+         "wide_obj_dup": b"{" + b'"a":1,' * (n // 6) + b'"a":2}', "colons": b":" * n, "commas": b"[" + b"," * n, "closers": b"]" * n,
+         "nul": b"\0" * n, "b64": b'"' + b"QUJD" * (n // 4) + b'="'}
+    if kind == "wide_obj":
+        return b"{" + b",".join(b'"k%d":0' % i for i in range(n // 8)) + b"}"
+    return r.get(kind)
+
+
+def case_doc(case, cap=None):
+    """bytes of the document of a case; with cap, repetition counts are capped (enough to classify its shape)"""
+    if case[0] == "crash":
+        return _unhex(case[2])
+    if case[0] == "big":
+        n = int(case[3])
+        return big_doc(case[2], min(n, cap) if cap else n)
+    if case[0] == "deep":
+        d = int(case[3])
+        if cap:
+            d = min(d, cap)
+        return _unhex(case[2]) * d + _unhex(case[4]) * 1 + _unhex(case[5]) * d
+    return None
+
+
+def scan_prefix(doc):
+    """strict scanner for a whitespace-separated sequence of JSON values cut off anywhere.
+    Returns None when an invalid byte is met before the end of input, else the state at the end:
+    'between' (nothing pending), 'open' (inside an unclosed container, between tokens), 'string', 'number', 'literal'."""
+    i, n = 0, len(doc)
+    stack = []          # 'a' array, 'o' object
+    expect = "value"    # value | value_or_close | key_or_close | key | colon | comma_or_close
+    top = lambda: stack[-1] if stack else None
+
+    def after_value():
+        return "comma_or_close" if stack else "value"
+    while True:
+        while i < n and doc[i] in b" \t\r\n":
+            i += 1
+        if i >= n:
+            return "open" if stack or expect not in ("value",) else "between"
+        c = doc[i]
+        if expect in ("value", "value_or_close", "key", "key_or_close"):
+            if c == 0x22:
+                i += 1
+                while True:
+                    if i >= n:
+                        return "string"
+                    b = doc[i]
+                    if b == 0x22:
+                        i += 1
+                        break
+                    if b < 0x20:
+                        return None
+                    if b == 0x5C:
+                        if i + 1 >= n:
+                            return "string"
+                        e = doc[i + 1]
+                        if e in b'"\\/bfnrt':
+                            i += 2
+                        elif e == 0x75:
+                            hx = doc[i + 2:i + 6]
+                            if any(h not in b"0123456789abcdefABCDEF" for h in hx):
+                                return None
+                            if len(hx) < 4:
+                                return "string"
+                            i += 6
+                        else:
+                            return None
+                    else:
+                        i += 1
+                expect = "colon" if expect in ("key", "key_or_close") else after_value()
+                continue
+            if expect in ("key", "key_or_close"):
+                if c == 0x7D and expect == "key_or_close":
+                    stack.pop()
+                    i += 1
+                    expect = after_value()
+                    continue
+                return None
+            if c == 0x5B:
+                stack.append("a")
+                i += 1
+                expect = "value_or_close"
+                continue
+            if c == 0x7B:
+                stack.append("o")
+                i += 1
+                expect = "key_or_close"
+                continue
+            if c == 0x5D and expect == "value_or_close":
+                stack.pop()
+                i += 1
+                expect = after_value()
+                continue
+            matched = False
+            for lit in (b"true", b"false", b"null"):
+                if c == lit[0]:
+                    seg = doc[i:i + len(lit)]
+                    if seg == lit:
+                        i += len(lit)
+                        expect = after_value()
+                        matched = True
+                    elif lit.startswith(seg) and i + len(seg) == n:
+                        return "literal"
+                    else:
+                        return None
+                    break
+            if matched:
+                continue
+            if c == 0x2D or 0x30 <= c <= 0x39:
+                j = i
+                if doc[j] == 0x2D:
+                    j += 1
+                    if j >= n:
+                        return "number"
+                if not (0x30 <= doc[j] <= 0x39):
+                    return None
+                if doc[j] == 0x30:
+                    j += 1
+                else:
+                    while j < n and 0x30 <= doc[j] <= 0x39:
+                        j += 1
+                if j < n and doc[j] == 0x2E:
+                    j += 1
+                    if j >= n:
+                        return "number"
+                    if not (0x30 <= doc[j] <= 0x39):
+                        return None
+                    while j < n and 0x30 <= doc[j] <= 0x39:
+                        j += 1
+                if j < n and doc[j] in b"eE":
+                    j += 1
+                    if j < n and doc[j] in b"+-":
+                        j += 1
+                    if j >= n:
+                        return "number"
+                    if not (0x30 <= doc[j] <= 0x39):
+                        return None
+                    while j < n and 0x30 <= doc[j] <= 0x39:
+                        j += 1
+                i = j
+                expect = after_value()
+                continue
+            return None
+        if expect == "colon":
+            if c != 0x3A:
+                return None
+            i += 1
+            expect = "value"
+            continue
+        if expect == "comma_or_close":
+            if c == 0x2C:
+                i += 1
+                expect = "key" if top() == "o" else "value"
+                continue
+            if (c == 0x5D and top() == "a") or (c == 0x7D and top() == "o"):
+                stack.pop()
+                i += 1
+                expect = after_value()
+                continue
+            return None
+        return None
+
+
+def truncated(doc):
+    """the document is blank or a JSON text cut off before its end (no invalid byte anywhere)"""
+    st = scan_prefix(doc)
+    if st is None:
+        return False
+    if st == "between":
+        return doc.strip(WS) == b""   # complete values only: not truncated, unless blank
+    return True
+
+
+def structurally_open(doc):
+    """what the non-validating native skippers see: quotes (with backslash escapes), bracket depth, 4/5-byte literals.
+    True when the input is blank, ends inside a string, or ends with an unclosed bracket (no stray closer before)."""
+    depth, i, n, seen = 0, 0, len(doc), False
+    while i < n:
+        c = doc[i]
+        if c == 0x22:
+            seen = True
+            i += 1
+            while True:
+                if i >= n:
+                    return True
+                if doc[i] == 0x5C:
+                    i += 2
+                    if i > n:
+                        return True
+                    continue
+                if doc[i] == 0x22:
+                    i += 1
+                    break
+                i += 1
+            continue
+        if c in b"tn":          # the skipper takes 4 bytes for true/null and 5 for false without looking at them
+            seen = True
+            i += 4
+            continue
+        if c == 0x66:
+            seen = True
+            i += 5
+            continue
+        if c in b"[{":
+            depth += 1
+            seen = True
+        elif c in b"]}":
+            depth -= 1
+            if depth < 0:
+                return False
+        elif c not in WS:
+            seen = True
+        i += 1
+    return depth > 0 or not seen
+
+
+def first_stray_closer(doc):
+    """index of the first `]`/`}` at bracket depth 0 outside strings, None if there is none"""
+    depth, i, n = 0, 0, len(doc)
+    while i < n:
+        c = doc[i]
+        if c == 0x22:
+            i += 1
+            while i < n and doc[i] != 0x22:
+                i += 2 if doc[i] == 0x5C else 1
+            i += 1
+            continue
+        if c in b"[{":
+            depth += 1
+        elif c in b"]}":
+            if depth == 0:
+                return i
+            depth -= 1
+        i += 1
+    return None
+
+
+def parse_perr(s):
+    out = []
+    for r in (s.get("perr") or "").split(";"):
+        p = r.split(":")
+        if len(p) >= 4:
+            try:
+                out.append((int(p[0]), int(p[1]), p[2], p[3]))
+            except ValueError:
+                pass
+    return out
 
 
 class C07(Spec):
     prop = "C07"
     lean_modules = ["SonicSpec.Props.C07"]
     needs_factx = True
-    rule = "(correspondence streams are added by the C07 work package)"
-    trusted_base = ["go/factx translator (Go source -> Generated/Bounds.lean, Generated/Consts.lean)"]
+    rule = ("entry points x {random bytes, grammar documents with one or two edits, every prefix, value streams with stray closers, "
+            "10^3..10^7-deep nestings closed/unclosed, 64 KiB..1 MiB scalars and wide containers}; encoder on cyclic, 0..10^6-deep, "
+            "non-encodable and large values; hand-made error values on a (size,pos) grid.  A case is non-trivial when an error value "
+            "was returned and formatted, or the status is not plain ok, or the input is >= 1000 levels deep / >= 64 KiB, or (fmterr) "
+            "the position lies within 48 of either end of the source or outside it")
+    trusted_base = ["go/factx translator (Go source -> Generated/Bounds.lean, Generated/Consts.lean)",
+                    "hand transliteration of the slice/index/Repeat expressions around calcBounds (Model/Robust.lean), cross-checked "
+                    "against the real formatters on a (size,pos) grid and on every decoder error met",
+                    "encoder state stack: compiled programs bracket save/drop (assumption `bracketed`); machine-code depth budgets and "
+                    "goroutine stack exhaustion are exhibited only by the deep-nesting streams"]
+    assumptions = ["a panicking user callback (Marshaler/Unmarshaler/Visitor) and documented argument panics (negative path index) are outside the property",
+                   "'bounded message' is judged as len(message) <= 4*len(input)+1024 (the out-of-range branch of calcBounds echoes the whole source, %q may quadruple it)",
+                   "'position inside the input' is judged as 0 <= pos <= len(input) (len itself = end of input)",
+                   "a hang is a case that does not answer within its deadline (60 s; 1 MiB inputs 300 s; deep cases and encoder values 600 s - normal answers take milliseconds to a few seconds)"]
+
+    def streams(self, tier, seed):
+        # `timeout` only sizes the runner's overall budget; hangs are detected inside the worker (60 s, deep cases 600 s)
+        if tier == "quick":
+            return [
+                Stream("fmterr-grid", "c07.fmt", 1000, timeout=0.05),
+                Stream("bytes", "c07.bytes", 400, envs={"default": {}, "optdec": OPTDEC}, timeout=1),
+                Stream("deep", "c07.deep", 0, timeout=60),
+                Stream("big", "c07.big", 0, timeout=10),
+                Stream("marshal", "c07.mar", 0, envs={"default": {}, "vm": VM}, timeout=10, use_model=False),
+            ]
+        return [
+            Stream("fmterr-grid", "c07.fmt", 60000, timeout=0.05),
+            Stream("bytes", "c07.bytes", 15000, envs={"default": {}, "optdec": OPTDEC, "optdec+fastmap": OPTDEC_FM, "noavx2": NOAVX2}, timeout=1),
+            Stream("deep", "c07.deep", 0, timeout=100),
+            Stream("deep-unmarshal-alt", "c07.deepum", 0, envs={"optdec": OPTDEC, "noavx2": NOAVX2}, timeout=100),
+            Stream("big", "c07.big", 0, timeout=60),
+            Stream("big-alt", "c07.bigq", 0, envs={"optdec": OPTDEC, "noavx2": NOAVX2}, timeout=60),
+            Stream("marshal", "c07.mar", 0, envs={"default": {}, "vm": VM}, timeout=60, use_model=False),
+        ]
+
+    def extra(self, ctx):
+        self._run = ctx["run"]   # judge() adds measured histograms to the evidence
+        return []
+
+    # ------------------------------------------------------------------ model side
+    def model_line(self, case, sonic):
+        if case[0] == "fmterr":
+            return "\t".join(case)
+        if sonic.get("bkind") == "dec" and "bsize" in sonic and "bpos" in sonic:
+            return "bounds\t%s\t%s" % (sonic["bsize"], sonic["bpos"])
+        return None
+
+    # ------------------------------------------------------------------ verdict
+    def judge(self, case, sonic, model):
+        out = []
+        for env, s in sonic.items():
+            st = s.get("sonic")
+            m = model.get(env) or {}
+            if st == "PANIC":
+                if case[0] == "fmterr":
+                    pass  # a hand-made error value: compared with the model below
+                else:
+                    out.append(("panic", "%s: %s" % (env, s.get("panic", ""))))
+                    continue
+            elif st == "CRASH":
+                out.append(("crash", "%s: %s" % (env, s.get("crash", ""))))
+                continue
+            elif st == "HANG":
+                out.append(("hang", "%s: %s" % (env, s.get("limit", s.get("crash", "")))))
+                continue
+            elif st == "noprogress":
+                out.append(("noprogress", "%s: Decode returned nil 3 times at input offset %s" % (env, s.get("stuckat"))))
+                continue
+            elif st is None or st == "unsupported":
+                out.append(("tie:harness-op", "%s: %s" % (env, s)))
+                continue
+            if case[0] == "fmterr":
+                out += self._judge_fmterr(env, case, s, m)
+                continue
+            L = _int(s, "len", 0)
+            if "fmtpanic" in s:
+                out.append(("error-format-panic", "%s: %s" % (env, s["fmtpanic"])))
+            bad = [r for r in parse_perr(s) if r[0] < 0 or r[0] > L]
+            run = getattr(self, "_run", None)
+            if bad and run is not None:
+                # measured distribution of how far outside the reported positions lie (evidence only)
+                h = run.cov.setdefault("position_excess_histogram", {})
+                for r in bad:
+                    k = str(r[0] - (r[1] if r[1] > L else L)) if r[0] > L else str(r[0])
+                    h[k] = h.get(k, 0) + 1
+            if bad:
+                out.append(("pos-outside-input", "%s: input of %d bytes, reported %s" % (env, L, ", ".join(
+                    "%d (%s%s)" % (r[0], r[3], ", eof" if r[2] == "e" else "") for r in bad[:6]))))
+            elif "maxpos" in s and (_int(s, "minpos") < 0 or _int(s, "maxpos") > L):
+                out.append(("pos-outside-input", "%s: positions %s..%s for an input of %d bytes" % (env, s.get("minpos"), s.get("maxpos"), L)))
+            if "skst" in s and _int(s, "skst") < 0:
+                e = _int(s, "skend")
+                if e < 0 or e > L:
+                    out.append(("pos-outside-input", "%s: Skip reports error position %d for an input of %d bytes" % (env, e, L)))
+            if _int(s, "errlen", 0) > 4 * L + 1024:
+                out.append(("unbounded-message", "%s: message of %s bytes for an input of %d bytes (%s)" % (env, s.get("errlen"), L, s.get("et"))))
+            if s.get("bkind") == "dec":
+                if s.get("bparse") == "fail":
+                    out.append(("tie:description-shape", "%s: Description() is not '...\\n\\n\\t<excerpt>\\n\\t<dots>^<dots>\\n'" % env))
+                elif m.get("model") == "ok":
+                    p, x, q, y = (_int(m, k) for k in ("p", "x", "q", "y"))
+                    offs = s.get("boffs", "")
+                    offs = [] if offs in ("", "none") else [int(o) for o in offs.split(",")]
+                    if not (q - p == _int(s, "belen") and x == _int(s, "bx") and y == _int(s, "by") and p in offs):
+                        out.append(("tie:calcBounds-translation", "%s: real excerpt len=%s dots=%s/%s at %s, translated calcBounds(%s,%s)=(%d,%d,%d,%d)"
+                                    % (env, s.get("belen"), s.get("bx"), s.get("by"), s.get("boffs"), s.get("bsize"), s.get("bpos"), p, x, q, y)))
+        return out
+
+    def _judge_fmterr(self, env, case, s, m):
+        if not m or "model" not in m:
+            return []
+        st, mm = s.get("sonic"), m.get("model")
+        if mm == "PANIC" or st == "PANIC":
+            if mm != st:
+                return [("tie:formatter-index-model", "%s: real=%s model=%s on hand-made %s error size=%s pos=%s" % (env, st, mm, case[1], case[2], case[3]))]
+            return []
+        if mm == "nosrc" or st == "nosrc":
+            return [] if mm == st else [("tie:formatter-index-model", "%s: real=%s model=%s" % (env, st, mm))]
+        if s.get("bparse") == "fail":
+            return [("tie:description-shape", "%s: description text has an unexpected shape" % env)]
+        p, x, q, y = (_int(m, k) for k in ("p", "x", "q", "y"))
+        offs = s.get("boffs", "")
+        offs = [] if offs in ("", "none") else [int(o) for o in offs.split(",")]
+        if not (q - p == _int(s, "belen") and x == _int(s, "bx") and y == _int(s, "by") and p in offs):
+            return [("tie:calcBounds-translation", "%s: %s size=%s pos=%s real excerpt len=%s dots=%s/%s at %s, model (%d,%d,%d,%d)"
+                     % (env, case[1], case[2], case[3], s.get("belen"), s.get("bx"), s.get("by"), s.get("boffs"), p, x, q, y))]
+        return []
+
+    def nontrivial(self, case, sonic, model):
+        if case[0] == "fmterr":
+            size, pos = int(case[2]), int(case[3])
+            return pos < 48 or pos > size - 48
+        if case[0] == "deep":
+            return int(case[3]) >= 1000
+        if case[0] == "big":
+            return True
+        for s in sonic.values():
+            if s.get("sonic") != "ok" or _int(s, "nerr", 0) > 0:
+                return True
+        return False
+
+    # ------------------------------------------------------------------ shrinking
+    def shrink_fields(self, case):
+        if case[0] == "crash":
+            return [2] if case[2] != "-" and len(case[2]) >= 4 else []
+        return []
+
+    def shrink_candidates(self, case):
+        c = []
+        if case[0] == "deep":
+            d = int(case[3])
+            for nd in (d // 2, d * 3 // 4, d * 9 // 10, d - 1):
+                if 0 < nd < d:
+                    c.append(case[:3] + [str(nd)] + case[4:])
+        elif case[0] == "big":
+            n = int(case[3])
+            for nn in (n // 2, n - 1):
+                if 0 < nn < n:
+                    c.append(case[:3] + [str(nn)])
+        elif case[0] == "rmar":
+            n = int(case[2])
+            for nn in (n // 2, n - 1):
+                if 0 <= nn < n and case[1] != "nonenc":
+                    c.append([case[0], case[1], str(nn), case[3]])
+        return c
+
+    # ------------------------------------------------------------------ known findings
+    def matchers(self):
+        def bad_envs(d, pred):
+            """every environment that shows a discrepancy of this kind satisfies pred, and at least one does"""
+            hit = False
+            for env, s in d["sonic"].items():
+                r = pred(env, s)
+                if r is None:
+                    continue
+                if not r:
+                    return False
+                hit = True
+            return hit
+
+        def offending(s):
+            L = _int(s, "len", 0)
+            return L, [r for r in parse_perr(s) if r[0] < 0 or r[0] > L]
+
+        def truncated_input_pos_past_end(d, params):
+            # the input is blank or cut off before its end (no invalid byte anywhere); the error source is the input
+            # itself; every outside position p has -min_below <= p < 0 or len < p <= len+max_excess
+            if d["kind"] != "pos-outside-input":
+                return False
+            doc = case_doc(d["case"], cap=64)
+            if doc is None or not (truncated(doc) or structurally_open(doc)):
+                return False
+            mx, mn = int(params.get("max_excess", 0)), int(params.get("min_below", 0))
+
+            def pred(env, s):
+                L = _int(s, "len", 0)
+                if "skst" in s:
+                    if _int(s, "skst") >= 0 or 0 <= _int(s, "skend") <= L:
+                        return None
+                    return L < _int(s, "skend") <= L + mx
+                L, bad = offending(s)
+                if not bad:
+                    return None
+                return all((r[1] in (-1, L)) and ((-mn <= r[0] < 0) or (L < r[0] <= L + mx)) for r in bad)
+            return bad_envs(d, pred)
+
+        def utf8_repaired_source_pos(d, params):
+            # string validation replaced ill-formed UTF-8 before decoding: the error carries the repaired (longer) copy as
+            # its source and the position refers to that copy (within it, or past its end by at most max_excess)
+            if d["kind"] != "pos-outside-input" or d["case"][0] not in ("crash", "big"):
+                return False
+            api = d["case"][1]
+            if not (api.endswith(":std") or api in ("streamstd", "validstd") or api.startswith("dec_opts")):
+                return False
+            doc = case_doc(d["case"], cap=64)
+            try:
+                doc.decode("utf-8")
+                return False
+            except UnicodeDecodeError:
+                pass
+            mx = int(params.get("max_excess", 0))
+
+            def pred(env, s):
+                L, bad = offending(s)
+                if not bad:
+                    return None
+                return all(r[1] > L and 0 <= r[0] <= r[1] + mx for r in bad)
+            return bad_envs(d, pred)
+
+        def parsing_error_code_negative_index(d, params):
+            # Error() of a returned decoder SyntaxError panics in types.ParsingError.Message: the code is negative as int
+            # (>= 2^63 as uint), the table has table_len entries
+            if d["kind"] != "error-format-panic":
+                return False
+            import re
+            rx = re.compile(r"errors\.SyntaxError\.(Error|Description): runtime error: index out of range \[(\d+)\] with length %d$" % int(params.get("table_len", 0)))
+
+            def pred(env, s):
+                if "fmtpanic" not in s:
+                    return None
+                m = rx.search(s["fmtpanic"])
+                return bool(m) and (1 << 63) <= int(m.group(2)) < (1 << 64)
+            return d["case"][1].split(":")[0] in ("um", "ums", "dec_opts", "dec_multi", "stream1", "stream7", "streamall", "streamstd") and bad_envs(d, pred)
+
+        def node_unmarshal_empty(d, params):
+            if d["kind"] != "panic" or d["case"][0] != "crash" or d["case"][1] != "node_unmarshal" or d["case"][2] != "-":
+                return False
+            return bad_envs(d, lambda env, s: ("index out of range [0] with length 0" in s.get("panic", "")) if s.get("sonic") == "PANIC" else None)
+
+        def optdec_unterminated_string_panic(d, params):
+            # SONIC_USE_OPTDEC only: a Decoder positioned on a string that is not terminated before the end of input
+            # reports success and leaves Pos() past the end; the next Decode slices [pos:len]
+            if d["kind"] != "panic" or d["case"][1] != "dec_multi":
+                return False
+            doc = case_doc(d["case"], cap=64)
+            if doc is None or scan_prefix(doc) != "string" and b'"' not in doc:
+                return False
+            import re
+            rx = re.compile(r"slice bounds out of range \[(\d+):(\d+)\]")
+
+            def pred(env, s):
+                if s.get("sonic") != "PANIC":
+                    return None
+                m = rx.search(s.get("panic", ""))
+                return env.startswith("optdec") and bool(m) and int(m.group(2)) == len(doc) and int(m.group(1)) > len(doc)
+            return bad_envs(d, pred)
+
+        def ast_deep_recursion_stack_overflow(d, params):
+            if d["kind"] != "crash" or d["case"][0] != "deep":
+                return False
+            api, depth = d["case"][1], int(d["case"][3])
+            unit = _unhex(d["case"][2])
+            levels = depth * max(1, sum(1 for c in unit if c in b"[{"))
+            need = params.get("min_levels", {}).get(api)
+            if need is None or levels < int(need):
+                return False
+            return bad_envs(d, lambda env, s: ("stack" in s.get("crash", "")) if s.get("sonic") == "CRASH" else None)
+
+        def stream_stray_closer_noprogress(d, params):
+            # the stream holds a `]` or `}` at nesting depth 0 and Decode is stuck there (InputOffset is only
+            # accurate to within the current read chunk, hence the slack)
+            if d["kind"] != "noprogress" or not d["case"][1].startswith("stream"):
+                return False
+            doc = case_doc(d["case"])
+            if doc is None:
+                return False
+            c = first_stray_closer(doc)
+            slack = int(params.get("offset_slack", 0))
+
+            def pred(env, s):
+                if s.get("sonic") != "noprogress":
+                    return None
+                at = _int(s, "stuckat", -1)
+                if not 0 <= at <= len(doc):
+                    return False
+                # what More() looks at: the next non-blank byte at the reported offset is a closer ...
+                if doc[at:].lstrip(WS)[:1] in (b"]", b"}"):
+                    return True
+                # ... or (InputOffset is only accurate to within the current read chunk) the first depth-0 closer lies
+                # at most offset_slack bytes ahead
+                return c is not None and c - slack <= at <= c + 1
+            return bad_envs(d, pred)
+
+        def optdec_validate_rawmessage_panic(d, params):
+            # SONIC_USE_OPTDEC only, string validation on, ill-formed UTF-8 plus a backslash escape in the document:
+            # the repaired copy is corrupted and Node.AsRaw gives up with panic("should always be valid json here")
+            if d["kind"] != "panic" or d["case"][0] != "crash":
+                return False
+            api = d["case"][1]
+            if not (api.endswith(":std") or api == "streamstd" or api.startswith("dec_opts")):
+                return False
+            doc = case_doc(d["case"])
+            try:
+                doc.decode("utf-8")
+                return False
+            except UnicodeDecodeError:
+                pass
+            if b"\\" not in doc:
+                return False
+            return bad_envs(d, lambda env, s: (env.startswith("optdec") and "should always be valid json here" in s.get("panic", "")) if s.get("sonic") == "PANIC" else None)
+
+        def ast_unset_pop_get_nil_deref(d, params):
+            # object with more than min_members members (hash index present): Unset(last key); Pop(); Get(last key)
+            if d["kind"] != "panic" or d["case"][1] != "raw_unsetpop":
+                return False
+            doc = case_doc(d["case"])
+            try:
+                import json
+                pairs = json.loads(doc.decode("utf-8"), object_pairs_hook=lambda p: p)
+            except Exception:
+                return False
+            if not isinstance(pairs, list) or len(pairs) <= int(params.get("min_members", 1 << 30)) or not all(isinstance(x, tuple) for x in pairs):
+                return False
+            return bad_envs(d, lambda env, s: ("nil pointer dereference" in s.get("panic", "")) if s.get("sonic") == "PANIC" else None)
+
+        def optdec_base64_single_pad_panic(d, params):
+            # SONIC_USE_OPTDEC only: a base64 string of length 3 (mod 4) ending in one `=` decodes to one byte more than
+            # DecodedLen allocated (rt.DecodeBase64), `ret[:n]` panics
+            if d["kind"] != "panic" or d["case"][0] != "crash":
+                return False
+            import re
+            doc = case_doc(d["case"])
+            if not any(len(m.group(1)) % 4 == 3 for m in re.finditer(rb'"([A-Za-z0-9+/]*=)"', doc)):
+                return False
+            rx = re.compile(r"slice bounds out of range \[:(\d+)\] with capacity (\d+)")
+
+            def pred(env, s):
+                if s.get("sonic") != "PANIC":
+                    return None
+                m = rx.search(s.get("panic", ""))
+                return env.startswith("optdec") and bool(m) and int(m.group(1)) == int(m.group(2)) + 1
+            return bad_envs(d, pred)
+
+        return {"truncated_input_pos_past_end": truncated_input_pos_past_end,
+                "optdec_base64_single_pad_panic": optdec_base64_single_pad_panic,
+                "ast_unset_pop_get_nil_deref": ast_unset_pop_get_nil_deref,
+                "utf8_repaired_source_pos": utf8_repaired_source_pos,
+                "parsing_error_code_negative_index": parsing_error_code_negative_index,
+                "node_unmarshal_empty": node_unmarshal_empty,
+                "optdec_unterminated_string_panic": optdec_unterminated_string_panic,
+                "ast_deep_recursion_stack_overflow": ast_deep_recursion_stack_overflow,
+                "stream_stray_closer_noprogress": stream_stray_closer_noprogress,
+                "optdec_validate_rawmessage_panic": optdec_validate_rawmessage_panic}
 
 
 SPEC = C07()
